@@ -138,14 +138,19 @@ class Frame(PyModel):
     def shape(self):
         return Cells(self.rows).shape
 
+    def copy(self, deep=True):
+        f = Frame(self.rows, False)
+        f.columns = self.columns
+        return f
+
 
 class ParamFrame(PyModel):
     """an opaque parameter table (its interpretation is the business of C11/C12)"""
-    def __init__(self, path):
-        self.path = path
+    def __init__(self, path, version=0):
+        self.path, self.version = path, version
 
-    def copy(self):
-        return self
+    def copy(self, deep=True):
+        return ParamFrame(self.path, self.version)
 
 
 def file_models(files, calls):
@@ -156,7 +161,7 @@ def file_models(files, calls):
         if f is None:
             raise PyRaise("FileNotFoundError", None, str(path))
         if f["kind"] == "param":
-            return ParamFrame(path)
+            return ParamFrame(path, f.get("version", 0))
         hdr = kw.get("header", "infer")
         return Frame(f["sheets"][0][1], header_consumed=hdr is not None)
 
@@ -168,7 +173,7 @@ def file_models(files, calls):
         hdr = kw.get("header", 0)
 
         def mk(rows):
-            return ParamFrame(path) if f["kind"] == "param" else Frame(rows, header_consumed=hdr is not None)
+            return ParamFrame(path, f.get("version", 0)) if f["kind"] == "param" else Frame(rows, header_consumed=hdr is not None)
         if sheet_name is None:          # pandas: None -> dict of ALL sheets
             return {n: mk(r) for n, r in f["sheets"]}
         if isinstance(sheet_name, int):
@@ -522,6 +527,47 @@ def file_cases(cx):
             got = list(d.f.get("items", [])) if kind == "ok" and isinstance(d, Obj) else f"{kind}: {getattr(d, 'exc_name', '')} {getattr(d, 'msg', d)!s:.120}"
             cx.ob("C18.dimension-files", ok, qual if not (kind == "ok" and not ok) else "Dimension.from_np", inp,
                   f"items read: {got}; the file holds {exp} (file order, declared type, header = the dimension's name only)")
+    # history: the file is read, edited on disk, and read again (a new reader built the same way): the second result is the file's present content
+    for reader_kind in ("csv", "excel", "excel-named-sheet"):
+        w = new_world(cx)
+        it = w.it
+        files = {"dims.file": {"kind": "dim", "sheets": [("first", [["H"], ["C2"]]), ("second", [["H"], ["C2"]])]},
+                 "p.file": {"kind": "param", "version": 1, "sheets": [("first", None), ("second", None)]}}
+        calls = []
+        it.hooks.update(file_models(files, calls))
+        ConverterStub.log = []
+        it.hooks["DataFrameToFlodymDataConverter"] = ConverterStub
+        dd = defs(w, "DimensionDefinition", name="Element", letter="C", dtype=strT)
+
+        def readers():
+            if reader_kind == "csv":
+                return (it.construct(cx.prog.cls("CSVDimensionReader"), [{"Element": "dims.file"}], {}),
+                        it.construct(cx.prog.cls("CSVParameterReader"), [{"p": "p.file"}], {}))
+            sh = dict(dimension_sheets={"Element": "second"}) if reader_kind == "excel-named-sheet" else {}
+            psh = dict(parameter_sheets={"p": "second"}) if reader_kind == "excel-named-sheet" else {}
+            return (it.construct(cx.prog.cls("ExcelDimensionReader"), [], dict(dimension_files={"Element": "dims.file"}, **sh)),
+                    it.construct(cx.prog.cls("ExcelParameterReader"), [], dict(parameter_files={"p": "p.file"}, **psh)))
+        inp = {"reader": reader_kind, "history": "read the dimension and parameter files; both are edited on disk; new readers read them again"}
+        rd, prd = readers()
+        k1, d1 = run_guarded(lambda: it.call_method(rd, "read_dimension", dd))
+        ds1 = it.construct(cx.prog.cls("DimensionSet"), [], dict(dim_list=[d1])) if k1 == "ok" else None
+        k1p, _ = run_guarded(lambda: it.call_method(prd, "read_parameter_values", "p", ds1)) if ds1 is not None else ("skip", None)
+        files["dims.file"]["sheets"] = [("first", [["H"], ["O"], ["N"]]), ("second", [["H"], ["O"], ["N"]])]
+        files["p.file"]["version"] = 2
+        rd, prd = readers()
+        k2, d2 = run_guarded(lambda: it.call_method(rd, "read_dimension", dd))
+        ok = k2 == "ok" and isinstance(d2, Obj) and list(d2.f.get("items", [])) == ["H", "O", "N"]
+        got = list(d2.f.get("items", [])) if k2 == "ok" and isinstance(d2, Obj) else f"{k2}: {getattr(d2, 'msg', d2)!s:.100}"
+        q = "CSVDimensionReader.read_dimension" if reader_kind == "csv" else "ExcelDimensionReader.read_dimension"
+        cx.ob("C18.dimension-files", ok, q, inp, f"second read gives {got}; the file now holds ['H', 'O', 'N']")
+        if ok and k1p == "ok":
+            ds2 = it.construct(cx.prog.cls("DimensionSet"), [], dict(dim_list=[d2]))
+            ConverterStub.log = []
+            k2p, _ = run_guarded(lambda: it.call_method(prd, "read_parameter_values", "p", ds2))
+            vers = [getattr(df, "version", None) for df, *_ in ConverterStub.log]
+            qp = "CSVParameterReader.read_parameter_values" if reader_kind == "csv" else "ExcelParameterReader.read_parameter_values"
+            cx.ob("C18.from-files", k2p == "ok" and vers == [2], qp, inp,
+                  f"the second read of the parameter file ended with {k2p} and handed the importer the table of file version {vers}; the file on disk is version 2")
     w = new_world(cx)
     dd = defs(w, "DimensionDefinition", name="Element", letter="C", dtype=strT)
     kind, d = run_guarded(lambda: w.it.call(w.it.get_attr(cx.prog.cls("Dimension"), "from_np"), [Cells([["a", "b"], ["c", "d"]]), dd], {}))
